@@ -153,6 +153,12 @@ class Check:
     def coq_make(self, targets, timeout=1500):
         """full .vo build of the given targets (and their dependencies)"""
         with Lock("coq"):
+            # every generated file must describe /repo as it is NOW, whichever check ran last and on whichever tree:
+            # a check re-translates its own tables and reports a failing translator itself, but its Props file may
+            # depend on tables of other translators (Props/C18 -> Tree/* -> Gen/GenDispatch.v), and a stale table left
+            # behind by a run against a different working tree would break - or wrongly pass - the build.  All
+            # translators rewrite only on change (about 1 s in all); failures are reported by the owning check.
+            sh("%s %s" % (sys.executable, os.path.join(ROOT, "gen", "regen_all.py")), cwd=ROOT, timeout=600)
             self.coq_makefile()
             cmd = "make -j%d %s" % (NPROC, " ".join(targets) if targets else "all")
             rc, out = sh(cmd, cwd=COQ, timeout=timeout)
